@@ -124,7 +124,9 @@ class Ref:
         if k == 'attr':
             return True
         if k == 'attr_type':
-            return bool(self.matches(v, c[2]))
+            # "recognisable as that type by the rules the loader itself uses":
+            # the loader needs exactly one reading
+            return len(self.matches(v, c[2])) == 1
         want = _lit(c[2])
         same = (v[0] == 's' and v[1] == TAGP + SCALAR_TAG[pt.py_kind(want)]
                 and _same(construct_scalar(v[1], v[2], self.resolve), want))
